@@ -109,7 +109,7 @@ Section Assemble.
     - destruct (in_dec N.eq_dec n (n :: r)) as [_|C]; [|exfalso; apply C; now left].
       destruct (side_value i (F n)) as [v|] eqn:E.
       + cbn [app lookup fst snd]. now rewrite N.eqb_refl.
-      + cbn [app]. rewrite IH. destruct (in_dec N.eq_dec n r); [assumption|reflexivity].
+      + cbn [app]. rewrite IH. destruct (in_dec N.eq_dec n r); reflexivity.
     - assert (R : lookup n ((match side_value i (F a) with Some v => [(a, v)] | None => [] end)
                             ++ flat_map (fun e : N * list oval =>
                                            match side_value i (snd e) with
@@ -137,6 +137,9 @@ Section Assemble.
     rewrite <- (IH (S k)) at 2. apply map_ext_in. intros i Hi. apply in_seq in Hi.
     replace (i - k)%nat with (S (i - S k)) by lia. reflexivity.
   Qed.
+
+  Lemma map_const_seq {A} (x : A) k : forall s, map (fun _ : nat => x) (seq s k) = repeat x k.
+  Proof. induction k as [|k IH]; intros s; [reflexivity|]. cbn [seq map repeat]. now rewrite IH. Qed.
 
   Hypothesis Kodd : Nat.odd K = true.
 
@@ -184,20 +187,14 @@ Section Assemble.
       destruct (in_dec N.eq_dec n ns) as [I|I].
       + destruct (S n I) as [[r Hr]|[HKn Hnone]].
         * rewrite Hr. cbn [side_value].
-          assert (R : map (fun _ : nat => r) (seq 0 K) = repeat r K).
-          { clear. generalize 0%nat. induction K as [|k IH]; intros s; [reflexivity|].
-            cbn [seq map repeat]. now rewrite IH. }
-          rewrite R, tm_repeat by assumption. reflexivity.
+          rewrite map_const_seq, tm_repeat by assumption. reflexivity.
         * assert (R : map (fun i => side_value i (F n)) (seq 0 K) = F n).
           { rewrite <- HKn at 1. rewrite <- (nth_seq_self (F n) None) at 2.
             apply map_ext. intros i. unfold side_value.
             destruct (F n) as [|x [|y t]] eqn:EF; try reflexivity.
             exfalso. rewrite tm_single in Hnone. discriminate. }
           rewrite R, Hnone. reflexivity.
-      + assert (R : map (fun _ : nat => @None value) (seq 0 K) = repeat None K).
-        { clear. generalize 0%nat. induction K as [|k IH]; intros s; [reflexivity|].
-          cbn [seq map repeat]. now rewrite IH. }
-        rewrite R, tm_repeat by assumption. reflexivity.
+      + rewrite map_const_seq, tm_repeat by assumption. reflexivity.
   Qed.
 End Assemble.
 
@@ -231,7 +228,7 @@ Section Dir.
       - destruct (resolve_file_values_shape vs) as [[v ->]| ->]; auto. }
     destruct (tm c) as [r|] eqn:Ec; [left; eauto|].
     right. split; [|assumption]. destruct Hc as [H1|H]; [|assumption].
-    destruct c as [|x [|]]; try discriminate. rewrite tm_single in Ec. discriminate.
+    destruct c as [|x [|]]; discriminate.
   Qed.
 
   Lemma map_to_tree_length (vs : list oval) : length (map to_tree vs) = length vs.
@@ -244,8 +241,8 @@ Section Dir.
   Proof.
     intros IH n _. cbn beta.
     destruct (merge_vals_shape (merge_dir f) (map (lookup n) ts)) as [H|[H1 H2]].
-    - rewrite (IH (map to_tree (map (lookup n) ts))); [|now rewrite !map_length].
-      + rewrite !map_length. tauto.
+    - specialize (IH (map to_tree (map (lookup n) ts))). rewrite !map_length in IH.
+      rewrite map_length. now apply IH.
     - now left.
     - right. rewrite map_length in H1. auto.
   Qed.
@@ -261,7 +258,7 @@ Section Dir.
     length (merge_dir fuel ts) = 1%nat \/ length (merge_dir fuel ts) = length ts.
   Proof.
     induction fuel as [|f IH]; intros ts Hodd; [now right|].
-    rewrite merge_dir_S. apply (assemble_length accept); [|].
+    rewrite merge_dir_S. apply (assemble_length accept).
     apply merge_dir_shaped. intros ts' Hl. apply IH. now rewrite Hl.
   Qed.
 
